@@ -19,7 +19,8 @@ RULE = ('Sandbox = root/outside/{canary file, canary dir/file} + root/store/ wit
         'adversarial grammar (empty, ".", "..", both separators, a/../b, absolute paths, names of existing symlinks/keys/files, '
         'NUL, newlines, unicode look-alike slashes, 300-char names) plus valid names. Sequences of 1-6 operations: exists, '
         'file_handle in modes r,w,a,x,rb,wb,ab,r+,w+ (followed by a read and/or write and close), delete, find_keys, and '
-        'environment steps that turn a previously used key name into a symlink between two calls. Oracle: full '
+        'environment steps that turn a previously used key name into a symlink between two calls, or change the working directory (in a third of '
+        'the cases the storage is given as a path RELATIVE to the working directory at construction; a tree with the same relative names exists under outside/). Oracle: full '
         'recursive snapshot (type, size, content hash, link target) before/after each operation; everything under outside/ must '
         'be byte-identical; inside store/ the only differences allowed are creation of the one key directory D = the direct child '
         'of the storage dir the key names, regular files directly inside D (file_handle), or removal of D and what is below it '
@@ -87,6 +88,11 @@ def build_sandbox(layout: dict) -> tuple[str, str]:
         f.write(CANARY + b'-file')
     with open(os.path.join(root, 'outside', 'cdir', 'inner.txt'), 'wb') as f:
         f.write(CANARY + b'-inner')
+    # a directory tree with the same relative names elsewhere: what a storage given as a RELATIVE path would hit after a chdir
+    os.makedirs(os.path.join(root, 'outside', 'store', 'k1'))
+    with open(os.path.join(root, 'outside', 'store', 'k1', 'f.txt'), 'wb') as f:
+        f.write(CANARY + b'-same-relative-name')
+    os.symlink('store', os.path.join(root, 'outside', 'store_link'))
     store = os.path.join(root, 'store')
     os.makedirs(store)
     for k in ('k1', 'k2'):
@@ -140,8 +146,13 @@ def check(spec: dict) -> core.CaseResult:
     root, storage_arg = build_sandbox(spec['layout'])
     nontrivial = False
     applied = []
+    cwd0 = os.getcwd()
     try:
         store_real = os.path.join(root, 'store')
+        if spec['layout'].get('relative'):
+            # the README's form: Lab(storage='some_dir') - a path relative to the working directory at construction time
+            os.chdir(root)
+            storage_arg = os.path.basename(storage_arg)
         before_init = snapshot(root)
         storage = LocalStorage(storage_arg, with_gitignore=spec['layout'].get('gitignore', True))
         after_init = snapshot(root)
@@ -152,6 +163,12 @@ def check(spec: dict) -> core.CaseResult:
             kind = op['op']
             key = op.get('key')
             filename = op.get('filename')
+            if kind == 'chdir':
+                # the caller changes its working directory between two storage calls
+                os.chdir(os.path.join(root, op['to']))
+                applied.append(f'chdir({op["to"]!r})')
+                nontrivial = nontrivial or bool(spec['layout'].get('relative'))
+                continue
             if kind == 'plant':
                 # the environment changes between two storage calls (done by the harness, not by labtech): the name of a key that
                 # has been used before now is a symlink
@@ -250,10 +267,13 @@ def check(spec: dict) -> core.CaseResult:
                                            or s.startswith('dlink_') or '..' in s):
                     nontrivial = True
     finally:
+        os.chdir(cwd0)
         shutil.rmtree(root, ignore_errors=True)
     seen = set()
     findings = [f for f in findings if not (f.signature in seen or seen.add(f.signature))]
     labels = sorted({f'op={o["op"]}' for o in spec['ops']})
+    if spec['layout'].get('relative'):
+        labels.append('relative-storage-path')
     if any(o['op'] == 'plant' for o in spec['ops']) and any(o['op'] != 'plant' and o.get('key') == p_['name'] for p_ in spec['ops'] if p_['op'] == 'plant' for o in spec['ops']):
         labels.append('key-used-before-and-after-becoming-a-symlink')
     return core.CaseResult(findings=findings, nontrivial=nontrivial, labels=tuple(labels), summary={'ops': applied})
@@ -288,6 +308,7 @@ def op():
         st.builds(lambda k, f, m: {'op': 'file_handle', 'key': k, 'filename': f, 'mode': m}, st.sampled_from(['k1', 'lnk_sibling', 'newkey']),
                   st.sampled_from(sorted(LINKS_FILE) + ['f.txt', 'new.bin']), st.sampled_from(MODES)),
         st.just({'op': 'find_keys'}),
+        st.builds(lambda t: {'op': 'chdir', 'to': t}, st.sampled_from(['outside', 'outside', 'store', '.'])),
         st.builds(lambda n, a: {'op': 'plant', 'name': n, 'as': a}, st.sampled_from(['k1', 'k2', 'newkey', 'K-9_x']),
                   st.sampled_from(['lnk_out_dir', 'lnk_out_file', 'lnk_dangling', 'lnk_self', 'lnk_nested', 'lnk_abs'])),
     )
@@ -295,11 +316,12 @@ def op():
 
 def layout():
     return st.builds(
-        lambda keys_, kl, fl, pf, sl, gi: {'keys': keys_, 'key_links': kl, 'file_links': fl, 'plainfile': pf, 'store_symlinked': sl, 'gitignore': gi},
+        lambda keys_, kl, fl, pf, sl, gi, rel: {'keys': keys_, 'key_links': kl, 'file_links': fl, 'plainfile': pf, 'store_symlinked': sl, 'gitignore': gi,
+                                                'relative': rel},
         st.sampled_from([['k1', 'k2'], ['k1'], ['k1', 'k2'], []]),
         st.lists(st.sampled_from(sorted(LINKS_KEY)), unique=True, max_size=len(LINKS_KEY)),
         st.lists(st.sampled_from(sorted(LINKS_FILE)), unique=True, max_size=len(LINKS_FILE)),
-        st.booleans(), st.booleans(), st.booleans())
+        st.booleans(), st.booleans(), st.booleans(), st.integers(0, 2).map(lambda i: i == 0))
 
 
 def case():
